@@ -209,6 +209,8 @@ pub struct OpGen<'a> {
     pub s: &'a State,
     pub hot: Vec<u32>,
     pub in_use: Vec<u32>,
+    /// 3D: pairs of darts whose faces can be 3-sewn
+    pub mirror: Vec<(u32, u32)>,
 }
 
 impl<'a> OpGen<'a> {
@@ -238,7 +240,8 @@ impl<'a> OpGen<'a> {
                 push(&mut hot, d);
             }
         }
-        OpGen { s, hot, in_use }
+        let mirror = crate::gen3::mirror_pairs(s);
+        OpGen { s, hot, in_use, mirror }
     }
 
     pub fn dart(&self, rng: &mut Rng) -> u32 {
@@ -265,6 +268,10 @@ impl<'a> OpGen<'a> {
         let valid = rng.chance(0.6);
         let sew = rng.chance(0.6);
         match rng.below(2) {
+            0 if i == 3 && valid && !self.mirror.is_empty() => {
+                let (l, r) = *rng.pick(&self.mirror);
+                if sew { Op::Sew { i, l, r } } else { Op::Link { i, l, r } }
+            }
             0 => {
                 // link / sew
                 let (l, r) = if valid {
@@ -365,5 +372,5 @@ pub fn rand_tx(rng: &mut Rng, g: &OpGen, max_ops: usize, uniq: &mut u64, p_topo:
     let n = 1 + rng.below(max_ops);
     let ops: Vec<Op> = (0..n).map(|_| if rng.chance(p_topo) { g.topo(rng) } else { g.data(rng, uniq) }).collect();
     let all_force = ops.iter().all(crate::ops::has_force_form);
-    Tx { runner: rand_runner(rng, n, all_force), ops, f1: vec![] }
+    Tx { runner: rand_runner(rng, n, all_force), ops, f1: vec![], f2: vec![] }
 }
